@@ -16,6 +16,55 @@ TECH = ("value numbering of the circumcentre formula (exact identity |U-A|=|U-B|
         "under abs); the tiling/Delaunay/clipped-Voronoi clauses are declined")
 
 
+def mesh_pairs_sites_and_edges(ctx, rule, consequence):
+    """Every `Mesh(sites=S, ..., edge_mesh=E)` in the package: E is `EdgeMesh.from_mesh(S, ...)` for the same S, or both are read
+    from one stored mesh, or both are the unchanged attributes of one existing mesh, or E is None (no sub-mesh)."""
+    from ..dataflow import expand
+    repo = ctx.repo
+    n = 0
+    for m in repo.modules.values():
+        if m.name.startswith("tdgl.test"):
+            continue
+        for f in m.functions.values():
+            for c in own_nodes(f.node):
+                if not (isinstance(c, ast.Call) and norm(c.func).split(".")[-1] == "Mesh" and any(k.arg == "edge_mesh" for k in c.keywords)):
+                    continue
+                kw = {k.arg: k.value for k in c.keywords if k.arg}
+                if "sites" not in kw:
+                    raise AnalysisError(f"{f.fq} L{c.lineno}: Mesh(...) without a `sites=` keyword")
+                n += 1
+                S, E = kw["sites"], kw["edge_mesh"]
+                try:
+                    Ex = expand(f.node, E)
+                except Exception:
+                    Ex = E
+                st, et = norm(S), norm(Ex)
+                # alternatives of a conditional definition (`edge_mesh = None` ... `if create_submesh: edge_mesh = EdgeMesh.from_mesh(...)`)
+                from ..dataflow import assignments
+                alts = [Ex]
+                if isinstance(E, ast.Name):
+                    alts = [v for _, v in assignments(f.node).get(E.id, []) if v is not None] or [Ex]
+                verdicts = []
+                for a in alts:
+                    at = norm(a)
+                    if isinstance(a, ast.Constant) and a.value is None:
+                        verdicts.append("ok")
+                    elif isinstance(a, ast.Call) and norm(a.func).endswith("EdgeMesh.from_mesh"):
+                        a0 = a.args[0] if a.args else next((k.value for k in a.keywords if k.arg == "sites"), None)
+                        verdicts.append("ok" if a0 is not None and norm(a0) == st else f"EdgeMesh.from_mesh({norm(a0) if a0 is not None else '?'}, ...) is paired with sites={st}")
+                    elif isinstance(a, ast.Call) and norm(a.func).endswith("EdgeMesh.from_hdf5"):
+                        verdicts.append("ok" if "h5" in st or "group" in st or "[" in st else f"a stored EdgeMesh is paired with sites={st}")
+                    elif isinstance(a, ast.Attribute) and a.attr == "edge_mesh":
+                        verdicts.append("ok" if st == norm(a.value) + ".sites" else f"the existing `{at}` is paired with sites={st}")
+                    else:
+                        raise AnalysisError(f"{f.fq} L{c.lineno}: edge_mesh={at} of a Mesh(...) construction is in no recognised form")
+                bad = [v for v in verdicts if v != "ok"]
+                ctx.ob(rule, f"{f.qual}: Mesh(sites={st[:40]}, edge_mesh=...) pairs the sites with their own edge mesh", not bad,
+                       detail={"sites": st, "edge_mesh": [norm(a)[:80] for a in alts]}, where=f.fq, loc=loc(f, c), construct=f"Mesh construction in {f.qual}",
+                       message=f"{f.qual} builds a Mesh in which {'; '.join(bad)}", consequence=consequence)
+    ctx.note("mesh_constructions", n)
+
+
 def check(ctx):
     repo = ctx.repo
     ctx.rule("R07.8", "a mesh restored from a file is the mesh that was saved: every geometric array is read back into the attribute it was written from "
@@ -32,6 +81,9 @@ def check(ctx):
                       "because the vertex order of the auxiliary polygons is not normalised", 2)
     ctx.rule("R07.3", "dual edge length: circumcentre-to-midpoint for one incident triangle, circumcentre-to-circumcentre for two; "
                       "adjacency stores triangle index + 1 and the reader subtracts 1", 3)
+    ctx.rule("R07.10", "a Mesh pairs site coordinates with the EdgeMesh built from those coordinates (edge centres move with the sites)", 2)
+    mesh_pairs_sites_and_edges(ctx, "R07.10", "a mesh assembled from new site coordinates and the EdgeMesh of the old ones keeps stale edge centres: "
+                                              "edge vectors, lengths and centres are no longer those of the site pairs")
     f = repo.func(UTIL, "generate_voronoi_vertices")
     T, ip = new_interp(repo)
     sites = Field("sites", "site", comps=2)
